@@ -36,6 +36,23 @@ pub fn canon(v: &Value, strip_hb: bool) -> Value {
     }
 }
 
+/// Removes null-valued fields (TLC's JSON reader rejects null) -- used when writing trace files.
+pub fn strip_nulls(v: &Value) -> Value {
+    match v {
+        Value::Object(o) => {
+            let mut m = Map::new();
+            for (k, x) in o {
+                if !x.is_null() {
+                    m.insert(k.clone(), strip_nulls(x));
+                }
+            }
+            Value::Object(m)
+        }
+        Value::Array(a) => Value::Array(a.iter().map(strip_nulls).collect()),
+        _ => v.clone(),
+    }
+}
+
 pub fn same(a: &Value, b: &Value, strip_hb: bool) -> bool {
     canon(a, strip_hb) == canon(b, strip_hb)
 }
